@@ -56,6 +56,11 @@ func dialWS(ps *server, query string, frames []zzmodels.WsMsg) (received []zzmod
 		for {
 			mt, data, err := c.ReadMessage()
 			if err != nil {
+				if ce, ok := err.(*ws.CloseError); ok {
+					mu.Lock()
+					got = append(got, zzmodels.WsMsg{Mt: ws.CloseMessage, Data: append([]byte{byte(ce.Code >> 8), byte(ce.Code)}, ce.Text...)})
+					mu.Unlock()
+				}
 				return
 			}
 			mu.Lock()
@@ -263,4 +268,29 @@ func VerifH_C09_ws_duplicate_probe() {
 		c.Close()
 	}
 	verif.Assert(probes == 2, "both probe pings are answered")
+}
+
+// VerifH_C05_ws_refused: a handshake that is refused only after the WebSocket connection
+// was accepted (revision not allowed) is closed with a close message carrying the
+// documented text, creates no session and emits one connection_error.
+func VerifH_C05_ws_refused() {
+	opts := config.DefaultServerOptions()
+	allow3 := verif.Bool()
+	opts.SetAllowEIO3(allow3)
+	ps := NewServer(opts).(*server)
+	rec := &evRec{}
+	rec.listen(ps, "connection", "connection_error")
+	eio := [3]string{"4", "3", "x"}[verif.Choose(3)]
+	got := dialWS(ps, "EIO="+eio+"&transport=websocket", nil)
+	if eio == "4" || allow3 {
+		verif.Assert(rec.count("connection") == 1 && rec.count("connection_error") == 0, "an allowed revision is admitted")
+		verif.Assert(len(got) >= 1 && got[0].Mt == ws.TextMessage && len(got[0].Data) > 0 && got[0].Data[0] == '0', "and receives its open packet")
+		return
+	}
+	verif.Assert(rec.count("connection") == 0 && ps.Clients().Len() == 0 && ps.ClientsCount() == 0, "a refused handshake creates no session")
+	verif.Assert(rec.count("connection_error") == 1, "exactly one connection_error")
+	verif.Assert(len(got) == 1 && got[0].Mt == ws.CloseMessage, "the accepted connection is closed with a close message, nothing else")
+	if len(got) == 1 && len(got[0].Data) >= 2 {
+		verif.Assert(string(got[0].Data[2:]) == "Unsupported protocol version", "carrying the documented text")
+	}
 }
